@@ -389,6 +389,29 @@ def check(prog, rep):
     rep.pin("degree consumers", "R04.4", "Expression.degree", ok, "per-node cache: -1 is written only for None and read back as None" if ok else "the per-node degree cache does not map None <-> -1 consistently", loc=deg.loc, detail="sentinel")
     uses_switch = any(dotted(c.func) == "compute_degree" for c in calls(deg.node))
     rep.pin("degree consumers", "R04.4", "Expression.degree", uses_switch, "the cached value comes from compute_degree (depth switch)" if uses_switch else "the cached degree is not computed by compute_degree", loc=deg.loc, detail="source")
+    # every writer of the per-node cache: None (uninitialised), the leaf degree of the class itself, or the sentinel
+    # mapping of Expression.degree fed by the analysis; anything else (e.g. arithmetic on raw cached values, where -1
+    # means "non-polynomial") bypasses the analysis
+    leaf = {"Constant": 0, "Variable": 1}
+    nw = 0
+    for f in prog.functions.values():
+        owner = f.cls.name if f.cls is not None else None
+        for n in walk_local(f.node):
+            if isinstance(n, (ast.Assign, ast.AnnAssign, ast.AugAssign)):
+                tg = n.targets if isinstance(n, ast.Assign) else [n.target]
+                for t in tg:
+                    if isinstance(t, ast.Attribute) and t.attr == "_degree":
+                        nw += 1
+                        v = n.value
+                        ok = (isinstance(v, ast.Constant) and v.value is None) or (isinstance(v, ast.Constant) and owner in leaf and v.value == leaf[owner] and dotted(t.value) == "self") or (f is deg and src(v) == "result if result is not None else -1")
+                        rep.ob("R04.4", f"{f.qual.split(':')[1]}", ok,
+                               f"degree cache written as {src(v)[:40]}" if ok else
+                               f"writes the per-node degree cache as `{src(v)[:60]}` outside the degree analysis: cached values use -1 for 'non-polynomial', so e.g. max() over them turns sin(x) + x into degree 1",
+                               loc=f"{f.module.rel}:{n.lineno}", detail=f"degree-cache-writer:{src(v)[:30]}")
+    for f in prog.functions.values():
+        for n in walk_local(f.node):
+            if isinstance(n, ast.Attribute) and n.attr == "_degree" and isinstance(n.ctx, ast.Load) and f is not deg:
+                rep.ob("R04.4", f"{f.qual.split(':')[1]}", False, f"reads the raw per-node degree cache ({src(n)}) outside Expression.degree: the value is in sentinel encoding (-1 = non-polynomial, None = unknown), not a degree", loc=f"{f.module.rel}:{n.lineno}", detail="raw-degree-cache-read")
     P = prog.cls("Problem")
     lin = P.methods.get("_is_linear_problem")
     if lin is None:
